@@ -68,7 +68,7 @@ theorem argument_coercion_success_reaches_resolver (s : SchemaD) (w : World) (ex
       match w parent fd.name path (renderArgs kw) with
       | .err msg ext => .ok (.null, [{ path := path, locs := [node.loc], kind := .resolver msg ext }])
       | .boom => .error (.internal "unexpected")
-      | .val v => completeValue s execSub (node :: more) fd.type path v := by
+      | .val v => catchField path node.loc (completeValue s execSub (node :: more) fd.type path v) := by
   have hs : argsEntry e defs nodes = some (renderArgs kw) := (argsEntry_some_iff e defs nodes _).mpr ⟨kw, hok, rfl⟩
   have h : (node.args.find? (·.1 == parent)).map (·.2) = some (some (renderArgs kw)) := by simp [hargs, hs]
   simp only [resolveField, h]
